@@ -42,6 +42,9 @@ structure R (n : Nat) (s : concat.State) (out : List Ev) (w : World) : Prop wher
   cur : ∀ i ∈ s.ctl.live, i + 1 = s.next
   regcur : ∀ i ∈ s.ctl.reg, i < s.next
   small : n + 1 ≤ 100000
+  /-- once the subscriber is gone no inner observer is live (finalize has unsubscribed them all), so
+      `new_observer` in the completion closure always sees a live subscriber -/
+  al : s.ctl.alive = false → s.ctl.live = []
 
 /-! the controller operations never add to `live` / `reg` -/
 
@@ -72,9 +75,13 @@ theorem sinkForce_reg (c : Ctl) : ∀ i ∈ c.sinkCompleteForce.1.reg, i ∈ c.r
 theorem R.shrink {n : Nat} {s : concat.State} {out out' : List Ev} {w w' : World} (h : R n s out w) (c' : Ctl)
     (hrel : Rel (lay n) (fun i => decide (s.next ≤ i)) [] c'
       ⟨.int ((s.next - 1 : Nat) : Int), s.next, s.next + 1⟩ out' w')
-    (hl : ∀ i ∈ c'.live, i ∈ s.ctl.live) (hr : ∀ i ∈ c'.reg, i ∈ s.ctl.reg) :
+    (hl : ∀ i ∈ c'.live, i ∈ s.ctl.live) (hr : ∀ i ∈ c'.reg, i ∈ s.ctl.reg)
+    (hal : c'.alive = false → c'.live = []) :
     R n { s with ctl := c' } out' w' :=
-  ⟨hrel, h.hk, h.pos, h.le, fun i hi => h.cur i (hl i hi), fun i hi => h.regcur i (hr i hi), h.small⟩
+  ⟨hrel, h.hk, h.pos, h.le, fun i hi => h.cur i (hl i hi), fun i hi => h.regcur i (hr i hi), h.small, hal⟩
+
+theorem fin_live_nil (c : Ctl) (h : c.live = []) : c.finalize.live = [] := by
+  simp [Ctl.finalize, h]
 
 /-- one history entry = `Comb.concat.step` -/
 theorem step_spec (n : Nat) (s : concat.State) (out : List Ev) (w : World) (p : Nat × Ev) (h : R n s out w) :
@@ -89,15 +96,26 @@ theorem step_spec (n : Nat) (s : concat.State) (out : List Ev) (w : World) (p : 
       exact (src_dead h.rel hi (by rw [hlv]; rfl) ev).conseq fun w1 h1 => { h with rel := h1 }
     | true =>
       have hcur : i + 1 = s.next := h.cur i (by simpa using hlv)
+      have halive : s.ctl.alive = true := by
+        cases q : s.ctl.alive with
+        | true => rfl
+        | false => have := h.al q; rw [this] at hlv; cases hlv
+      have hkn : (s.ctl.kill i).live = [] := by
+        apply List.eq_nil_iff_forall_not_mem.2
+        intro j hj
+        simp only [Ctl.kill, List.mem_filter, bne_iff_ne] at hj
+        have := h.cur j hj.1; omega
       simp only [concat.step, Ctl.isLive, hlv, ↓reduceIte]
       refine src_live ok h.rel hi hlv (by simp; omega) ev fun w1 h1 => ?_
       cases ev with
       | next d =>
         exact (sinkNext_spec ok h1 d).conseq fun w2 h2 =>
           h.shrink _ h2 (sinkNext_live _ _) (sinkNext_reg _ _)
+            (fun q => by simp [Ctl.sinkNext, halive] at q)
       | error e =>
         exact (sinkError_spec ok h1 e).conseq fun w2 h2 =>
           h.shrink _ h2 (fun j hj => kill_live _ _ _ (sinkError_live _ _ _ hj)) (sinkError_reg _ _)
+            (fun _ => by unfold Ctl.sinkError; split <;> exact fin_live_nil _ hkn)
       | complete =>
         simp only [codeBody, lay, Ev.isTerminal, ↓reduceIte] at h1 ⊢
         obtain ⟨f, hf⟩ : ∃ f, 100000 - i = f + 1 := ⟨100000 - i - 1, by have := h.small; omega⟩
@@ -121,7 +139,7 @@ theorem step_spec (n : Nat) (s : concat.State) (out : List Ev) (w : World) (p : 
             cases q : (s.ctl.kill i).reg.contains s.next with
             | false => rfl
             | true => have := h.regcur s.next (by simpa [Ctl.kill] using q); omega
-          have h3 := newObserver_sub ok h2 (j := s.next) (by simp only [lay]; omega) (by simp) hnl hnr rfl rfl
+          have h3 := newObserver_sub ok h2 halive (j := s.next) (by simp only [lay]; omega) (by simp) hnl hnr rfl rfl
             (fun _ x => (scOf (n + 1)).sinkNext x) (fun _ e => (scOf (n + 1)).sinkError e)
             (fun _ => concatNext (scOf (n + 1)) (2 * (n + 1) + 2) (others n) f)
             (by simp only [innerFull, lay]; rw [show 100000 - s.next = f by omega]; rfl)
@@ -132,7 +150,7 @@ theorem step_spec (n : Nat) (s : concat.State) (out : List Ev) (w : World) (p : 
             congr 1; omega
           rw [hxe] at h4
           refine ⟨h4.fresh_congr _ fun j _ => ?_, h.hk, by simp, by show s.next + 1 ≤ n + 1; rw [h.hk] at hlt; omega,
-            ?_, ?_, h.small⟩
+            ?_, ?_, h.small, fun q => by simp [Ctl.addObserver, Ctl.kill, halive] at q⟩
           · by_cases e : j = s.next
             · subst e; simp
             · simp only [e, ↓reduceIte, decide_eq_decide]; omega
@@ -150,6 +168,7 @@ theorem step_spec (n : Nat) (s : concat.State) (out : List Ev) (w : World) (p : 
           simp only [hin, ↓reduceIte, hlt]
           exact (sinkCompleteForce_spec ok h1).conseq fun w2 h2 =>
             h.shrink _ h2 (fun j hj => kill_live _ _ _ (sinkForce_live _ _ hj)) (sinkForce_reg _)
+              (fun _ => by unfold Ctl.sinkCompleteForce; split <;> exact fin_live_nil _ hkn)
   · rw [callOf_ge hi]
     have hlv : s.ctl.live.contains i = false := by
       cases q : s.ctl.live.contains i with
@@ -189,7 +208,7 @@ theorem prog_spec (n : Nat) (hn : n + 1 ≤ 100000) (H : History) :
   · simp [W2, rootObs, Lay.sc, lay, scOf, sjs]
   have h0 := rel_W2_empty (lay n) [.int 0] (oConcat ((sjs (n + 1)).headD default).observable
       ((sjs (n + 1)).tail.map Subj.observable))
-  have h1 := newObserver_sub ok h0 (j := 0) (by simp [lay]) rfl rfl rfl rfl rfl
+  have h1 := newObserver_sub ok h0 rfl (j := 0) (by simp [lay]) rfl rfl rfl rfl rfl
     (fun _ x => (scOf (n + 1)).sinkNext x) (fun _ e => (scOf (n + 1)).sinkError e)
     (fun _ => concatNext (scOf (n + 1)) (2 * (n + 1) + 2) (others n) 100000) rfl
   have hsrc : ((sjs (n + 1)).headD default).observable = (sjOf 0).observable := by simp [sjs, List.range'_succ]
@@ -200,7 +219,8 @@ theorem prog_spec (n : Nat) (hn : n + 1 ≤ 100000) (H : History) :
     (fun i => decide (1 ≤ i)) (fun i _ => by by_cases e : i = 0 <;> simp [e]; omega)
   have h4 : R n (concat.init (n + 1)) [] _ := ⟨h3, rfl, Nat.le_refl 1, by show 1 ≤ n + 1; omega,
     by intro i hi; simp [concat.init, Ctl.init] at hi; show i + 1 = 1; omega,
-    by intro i hi; simp [concat.init, Ctl.init] at hi; show i < 1; omega, hn⟩
+    by intro i hi; simp [concat.init, Ctl.init] at hi; show i < 1; omega, hn,
+    by intro q; simp [concat.init, Ctl.init] at q⟩
   have h5 := drive_concat n H _ _ _ h4
   simpa [concat.run, sjs] using h5
 
